@@ -200,13 +200,28 @@ class CodecFam(Family):
         return any(x >= 0x80 for x in raw)
 
 
+def _misaligned():
+    out = {}
+    for canon, le_pair, be_pair in [('utf-16', '\u0a41\u4100', '\u4100\u0a41'), ('utf-32', '\u0a41\u4100', '\U00010000\U000a0041')]:
+        crlf_le, crlf_be = '\u0d41\u0a00\u4100', '\u4100\u0d00\u0a41'
+        out[canon] = ['a' + le_pair + 'b\r\nsecond\r\n', 'a' + crlf_le + 'b\nsecond\n', le_pair + ' x\r\n y\r\n']
+        out[canon + '-le'] = out[canon]
+        out[canon + '-be'] = ['a' + be_pair + 'b\r\nsecond\r\n', be_pair + ' x\r\n y\r\n'] + \
+            (['a' + crlf_be + 'b\nsecond\n'] if canon == 'utf-16' else [])
+    return out
+
+
+MISALIGNED = _misaligned()
+
+
 class Spelling(Family):
     """C15: newline/BOM handling per codec spelling."""
     name = 'spelling'
     rule = ('every spelling of the regenerated codec catalogue (alias x case x hyphen/underscore variants, not purely '
             'numeric, stateless text codecs) x {unix, dos}: get_newline_for_type and guess_line_endings against the '
             'model and against the BOM-free incremental encoding; plus a write/read round trip of a preamble, a meta '
-            'and a diff under a seeded sample (quick) / all (thorough) of the spellings of the ten modelled codecs; '
+            'and a diff under a seeded sample (quick) / all (thorough) of the spellings of the ten modelled codecs, and of '
+            'texts whose encoded first line holds the newline bytes across a character boundary (wide codecs); '
             'non-trivial = the spelling differs from the canonical name; distinct by (spelling, kind)')
 
     def cases(self, tier, rng, prop_id):
@@ -228,6 +243,17 @@ class Spelling(Family):
             rt = rng.sample(rt, min(60, len(rt)))
         for r in rt:
             yield dict(kind='roundtrip', spelling=r['spelling'], canonical=r['canonical'])
+        # texts whose ENCODED first line contains the codec's LF / CRLF bytes across a character boundary (the line ending
+        # is a property of the text): every wide codec under a few spellings each
+        wide = [r for r in rows if r['canonical'] in MISALIGNED]
+        by = {}
+        for r in wide:
+            by.setdefault(r['canonical'], []).append(r)
+        for canon, rs in sorted(by.items()):
+            pick = [x for x in rs if x['spelling'] == canon] + rng.sample(rs, min(3 if tier == 'quick' else 12, len(rs)))
+            for r in pick:
+                for v in range(len(MISALIGNED[canon])):
+                    yield dict(kind='roundtrip', spelling=r['spelling'], canonical=canon, variant=v)
 
     def model_line(self, c):
         if c['kind'] == 'newline':
@@ -246,6 +272,8 @@ class Spelling(Family):
         if c['canonical'].startswith('utf'):
             # later lines that START with U+FEFF / U+FFFE: only the very first bytes of the content can be a byte order mark
             text = 'h\xe9llo\n\ufeffw\n\ufffex\n \ufeff\n'
+        if c.get('variant') is not None:
+            text = MISALIGNED[c['canonical']][c['variant']]
         return [['write_preamble', sl.S(text), sl.S(s), 'omitted', None, None],
                 ['new_change', sl.S(s)],
                 ['write_preamble', sl.S(text + 'x'), None, {'i': 2}, sl.S('dos'), None],
